@@ -193,7 +193,7 @@ def run(ctx):
     if replay_kind in (None, "hist"):
         hj = os.path.join(work, "h.json")
         cmd = [hb, "-mode", "hist", "-seed", str(ctx.seed), "-out", hj, "-corpus", corpus, "-j", "8",
-               "-n", "14" if quick else "220", "-heavy", "1" if quick else "6"]
+               "-n", "14" if quick else "220", "-heavy", "1" if quick else "6", "-pool", "2" if quick else "12"]
         if quick:
             cmd += ["-heavytiny"]
         else:
